@@ -105,3 +105,62 @@ theorem Inv.lookup_route {cf : Config} {ops exts c} (h : Inv cf ops exts c) {t h
       | err code => rw [hp] at hr; cases hr
 
 end Tunnox.C19
+namespace Tunnox.C19
+open Gen
+
+theorem stepOp_index (cf : Config) (s : Store) (o : Op) (pc : PC) :
+    (stepOp cf s o pc).1.index = s.index ∨
+      (∃ n d, pc = .cSetNX n ∧ (stepOp cf s o pc).1.index = upd s.index d (some n)) ∨
+      (∃ d, (stepOp cf s o pc).1.index = upd s.index d none) := by
+  cases o <;> cases pc <;>
+    simp only [stepOp, stepCreate, stepDelete, stepUpdate, stepLookup, registryStage] <;>
+    (repeat' split) <;>
+    first
+      | exact Or.inl rfl
+      | exact Or.inl trivial
+      | exact Or.inr (Or.inl ⟨_, _, rfl, rfl⟩)
+      | exact Or.inr (Or.inr ⟨_, rfl⟩)
+
+/-- **Never re-indexed.**  Once a mapping number that has been born is no longer indexed under any name, no step
+of any thread indexes it again (numbers are never reused, only the claiming create writes the index). -/
+theorem Inv.unindexed_step {cf ops exts c} (h : Inv cf ops exts c) (t n : Nat) (hb : ∃ o, c.st.born n = some o)
+    (hu : Unindexed c.st n) : Unindexed (stepThread cf c t).1.st n := by
+  cases hto : (c.th t).todo with
+  | nil => rw [stepThread_nil cf c t hto]; exact hu
+  | cons op rest =>
+    rw [stepThread_st cf c t op rest hto]
+    rcases stepOp_index cf c.st op (c.th t).pc with e | ⟨k, d, hpc, e⟩ | ⟨d, e⟩
+    · unfold Unindexed; rw [e]; exact hu
+    · unfold Unindexed; rw [e]
+      intro d' hd'
+      have hl := h.linv hto
+      rw [hpc] at hl
+      by_cases e' : d' = d
+      · subst e'
+        simp only [upd_same, Option.some.injEq] at hd'
+        subst hd'
+        obtain ⟨o, ho⟩ := hb
+        cases op <;> simp only [LInv] at hl
+        rw [hl.2.2] at ho; cases ho
+      · simp only [upd_other _ _ _ _ e'] at hd'; exact hu d' hd'
+    · unfold Unindexed; rw [e]
+      intro d' hd'
+      by_cases e' : d' = d
+      · subst e'; simp at hd'
+      · simp only [upd_other _ _ _ _ e'] at hd'; exact hu d' hd'
+
+/-- A delete that has passed the index step (about to remove the record, the list entries, or to release
+its claim) has left its mapping unindexed. -/
+theorem Inv.delete_unindexes {cf ops exts c} (h : Inv cf ops exts c) {t n cl rest}
+    (hto : (c.th t).todo = .del n cl :: rest)
+    (hpc : (∃ r, (c.th t).pc = .dData r) ∨ (∃ r, (c.th t).pc = .dRemC r) ∨ (∃ r, (c.th t).pc = .dRemG r) ∨
+      (c.th t).pc = .dRelease) :
+    Unindexed c.st n ∧ ∃ o, c.st.born n = some o := by
+  have hl := h.linv hto
+  rcases hpc with ⟨r, e⟩ | ⟨r, e⟩ | ⟨r, e⟩ | e <;> rw [e] at hl <;> simp only [LInv] at hl
+  · exact ⟨hl.2.2, _, hl.1.2.2.choose_spec.1⟩
+  · exact ⟨hl.2.2, _, hl.1.2.2.choose_spec.1⟩
+  · exact ⟨hl.2.2, _, hl.1.2.2.choose_spec.1⟩
+  · exact ⟨hl.2.2.2.1, hl.2.2.2.2⟩
+
+end Tunnox.C19
